@@ -59,6 +59,11 @@ func (te *tableEngine) tableGameOpen() error {
 					return nil
 				}
 
+				// the table was closed or released while waiting for the retry
+				if te.isReleased || te.table.State.Status == TableStateStatus_TableClosed {
+					return nil
+				}
+
 				newTable, err = te.openGame(te.table)
 				if err != nil {
 					if errors.Is(err, ErrTableOpenGameFailed) {
